@@ -72,6 +72,9 @@ MUTANTS = [
     ("cm-noycounts", CO, "                    y_counts=counts_one_value[j][:-1],\n", "", None, "_apply_gb_func_across_chunked_group_keys::loop", "empty partials of a chunk are merged as data"),
     ("cm-nullslot", CO, "                result = result[:-1]  # ignore null group\n", "", None, "_apply_gb_func_across_chunked_group_keys::loop", "the chunk's null-key slot takes part in the merge"),
     ("cm-countassign", CO, "                count[pointer] += counts_one_value[j][:-1]  # ignore null group\n", "                count[pointer] += counts_one_value[0][:-1]  # ignore null group\n", None, "_apply_gb_func_across_chunked_group_keys::loop", "the counts of the first chunk are accumulated for every chunk"),
+    ("uni-nullidx", CO, "                has_key = k >= 0\n", "                has_key = k >= -1\n", None, "_unify_group_key_chunks::loop", "a null key indexes the pointer table with -1 and gets the chunk's last label"),
+    ("uni-fill", CO, "                codes = np.full(len(k), -1, dtype=np.int64)\n", "                codes = np.full(len(k), 0, dtype=np.int64)\n", None, "_unify_group_key_chunks::loop", "null-key rows get the code of the first label"),
+    ("uni-plain", CO, "                codes = np.full(len(k), -1, dtype=np.int64)\n                has_key = k >= 0\n                codes[has_key] = p[k[has_key]]\n", "                codes = p[k]\n", None, "_unify_group_key_chunks::loop", "the pinned defect: the pointer table indexed with every code, -1 included"),
     ("isnull-int", U, "            return x == MIN_INT\n", "            return x <= MIN_INT + 1\n", None, "jit_is_null.is_null#1", "a second integer value is read as null"),
     ("isnull-neg", U, "        out[i] = is_null(arr[i])", "        out[i] = not is_null(arr[i])", None, "arr_is_null", "inverted"),
 ]
